@@ -1,4 +1,5 @@
 import TinyVerif.Proofs.DlIndSeg
+import TinyVerif.Proofs.DlIndFree2
 /-!
 # The functions that change the segment list / talk to the OS (tag `sg_`)
 
@@ -1415,5 +1416,180 @@ theorem sg_place_of_prepend (hpre : sg_prepend_Spec) : sg_place_Spec := by
 /-- **`sys_alloc`**, given the `sys-prepend` branch -/
 theorem sg_sys_alloc_of_prepend (hpre : sg_prepend_Spec) : sys_alloc_Spec :=
   sg_sys_alloc_of_place (sg_place_of_prepend hpre)
+
+/-! ## `sys-prepend` = the extended segment with an in-use remainder `Q`, followed by freeing `Q`
+
+The code never writes the in-use header `Q`; `SgAbs Q h hI` relates the real heap `h` to the fictitious heap
+`hI` that has `Q` in the (header-free) region it covers. -/
+
+def SgAbs (Q : Ent) (h hI : Heap) : Prop :=
+  hI = { h with ents := putEnt h.ents Q } ∧ entsOk h.ents = true ∧ 0 < Q.size ∧
+    ∀ y ∈ h.ents, y.addr + y.size ≤ Q.addr ∨ Q.addr + Q.size ≤ y.addr
+
+theorem SgAbs.tab {Q : Ent} {h hI : Heap} (a : SgAbs Q h hI) :
+    entsOk hI.ents = true ∧ ∀ z, z ∈ hI.ents ↔ z = Q ∨ z ∈ h.ents := by
+  obtain ⟨a1, a2, a3, a4⟩ := a
+  have hp := entsOk_pos a2
+  obtain ⟨t1, t2⟩ := sg_putEnt_tab (e := Q) a2 a3 (fun y hy hlt => by rcases a4 y hy with h | h <;> omega)
+  subst a1
+  refine ⟨t1, fun z => ?_⟩
+  show z ∈ putEnt h.ents Q ↔ _
+  rw [t2 z]
+  constructor
+  · rintro (h | ⟨h, _⟩)
+    · exact Or.inl h
+    · exact Or.inr h
+  · rintro (h | h)
+    · exact Or.inl h
+    · refine Or.inr ⟨h, ?_⟩
+      have := hp z h
+      rcases a4 z h with h' | h' <;> omega
+
+/-- a header write that covers `Q` gives the same heap with or without `Q` -/
+theorem sg_abs_writeHead {Q : Ent} {h hI : Heap} (a : SgAbs Q h hI) (hpf : Q.pfoot = 0) {n : Nat} {c p : Bool}
+    (hn : Q.size ≤ n) (hn8 : n % 8 = 0) :
+    writeHead hI Q.addr n c p = writeHead h Q.addr n c p := by
+  obtain ⟨t1, t2⟩ := a.tab
+  obtain ⟨a1, a2, a3, a4⟩ := a
+  have hp := entsOk_pos a2
+  rw [writeHead_eq hn8, writeHead_eq hn8]
+  have hQm : Q ∈ hI.ents := (t2 Q).2 (Or.inl rfl)
+  have hpf1 : pfootAt hI.ents Q.addr = 0 := by rw [pfootAt_some (entsOk_find Q hQm t1)]; exact hpf
+  have hpf2 : pfootAt h.ents Q.addr = 0 := by
+    apply pfootAt_none
+    apply findEnt_none
+    intro y hy hya
+    have := hp y hy
+    rcases a4 y hy with h | h <;> omega
+  rw [hpf1, hpf2]
+  have hlow1 : ∀ y ∈ hI.ents, y.addr < Q.addr → y.addr + y.size ≤ Q.addr := by
+    intro y hy hlt
+    rcases (t2 y).1 hy with h | h
+    · subst h; omega
+    · rcases a4 y h with h' | h' <;> omega
+  have hlow2 : ∀ y ∈ h.ents, y.addr < Q.addr → y.addr + y.size ≤ Q.addr := by
+    intro y hy hlt
+    rcases a4 y hy with h' | h' <;> omega
+  obtain ⟨u1, u2⟩ := sg_putEnt_tab (e := { addr := Q.addr, size := n, cin := c, pin := p, pfoot := 0 }) t1 (by simp only; omega) hlow1
+  obtain ⟨v1, v2⟩ := sg_putEnt_tab (e := { addr := Q.addr, size := n, cin := c, pin := p, pfoot := 0 }) a2 (by simp only; omega) hlow2
+  have heq : putEnt hI.ents { addr := Q.addr, size := n, cin := c, pin := p, pfoot := 0 } =
+      putEnt h.ents { addr := Q.addr, size := n, cin := c, pin := p, pfoot := 0 } := by
+    refine sg_entsOk_ext u1 v1 ?_
+    intro z
+    rw [u2 z, v2 z, t2 z]
+    simp only
+    constructor
+    · rintro (h | ⟨h | h, hc⟩)
+      · exact Or.inl h
+      · subst h; omega
+      · exact Or.inr ⟨h, hc⟩
+    · rintro (h | ⟨h, hc⟩)
+      · exact Or.inl h
+      · exact Or.inr ⟨Or.inr h, hc⟩
+  rw [heq, a1]
+
+/-- clearing PINUSE of a header outside `Q` commutes with the presence of `Q` -/
+theorem sg_abs_clearPin {Q : Ent} {h hI h' : Heap} (a : SgAbs Q h hI) {x : Ent} (hx : x ∈ h.ents) {ad : Nat}
+    (hxa : x.addr = ad) (e : clearPin h ad = .ok h') :
+    ∃ hI', clearPin hI ad = .ok hI' ∧ SgAbs Q h' hI' := by
+  obtain ⟨t1, t2⟩ := a.tab
+  obtain ⟨a1, a2, a3, a4⟩ := a
+  have hp := entsOk_pos a2
+  obtain ⟨c1, c2, c3⟩ := sg_clearPin_tab e a2 hx hxa
+  have hxI : x ∈ hI.ents := (t2 x).2 (Or.inr hx)
+  subst hxa
+  obtain ⟨es2, m1, m2, m3⟩ := sg_modEnt_tab (f := fun e => { e with pin := false }) t1 hxI rfl rfl
+  refine ⟨{ hI with ents := es2 }, ?_, ?_, c2, a3, ?_⟩
+  · unfold clearPin; rw [m1]; rfl
+  · have hreg : ∀ y ∈ h'.ents, y.addr + y.size ≤ Q.addr ∨ Q.addr + Q.size ≤ y.addr := by
+      intro y hy
+      rcases (c3 y).1 hy with h | ⟨h, _⟩
+      · subst h; exact a4 x hx
+      · exact a4 y h
+    have hp' := entsOk_pos c2
+    obtain ⟨w1, w2⟩ := sg_putEnt_tab (e := Q) c2 a3 (fun y hy hlt => by rcases hreg y hy with h | h <;> omega)
+    have : es2 = putEnt h'.ents Q := by
+      refine sg_entsOk_ext m2 w1 ?_
+      intro z
+      rw [m3 z, w2 z, t2 z, c3 z]
+      have hxq := a4 x hx
+      have hxp := hp x hx
+      constructor
+      · rintro (h | ⟨h | h, hne⟩)
+        · refine Or.inr ⟨Or.inl h, ?_⟩
+          subst h; simp only; omega
+        · exact Or.inl h
+        · refine Or.inr ⟨Or.inr ⟨h, hne⟩, ?_⟩
+          have := hp z h
+          rcases a4 z h with h' | h' <;> omega
+      · rintro (h | ⟨h | ⟨h, hne⟩, _⟩)
+        · refine Or.inr ⟨Or.inl h, ?_⟩
+          subst h; omega
+        · exact Or.inl h
+        · exact Or.inr ⟨Or.inr h, hne⟩
+    rw [this, a1, c1]
+  · intro y hy
+    rcases (c3 y).1 hy with h | ⟨h, _⟩
+    · subst h; exact a4 x hx
+    · exact a4 y h
+
+theorem sg_abs_find {Q : Ent} {h hI : Heap} (a : SgAbs Q h hI) {x : Ent} (hx : x ∈ h.ents) :
+    findEnt hI.ents x.addr = findEnt h.ents x.addr := by
+  obtain ⟨t1, t2⟩ := a.tab
+  rw [entsOk_find x ((t2 x).2 (Or.inr hx)) t1, entsOk_find x hx a.2.1]
+
+/-- unlinking a chunk other than `Q` from its bin commutes with the presence of `Q` -/
+theorem sg_abs_unlink {Q : Ent} {h hI h' : Heap} (a : SgAbs Q h hI) {x : Ent} (hx : x ∈ h.ents) {sz : Nat}
+    (e : unlink_chunk h x.addr sz = .ok h') :
+    ∃ hI', unlink_chunk hI x.addr sz = .ok hI' ∧ SgAbs Q h' hI' := by
+  have hf := sg_abs_find a hx
+  obtain ⟨a1, a2, a3, a4⟩ := a
+  have hfr := unlink_chunk_frame e
+  have hge : getE hI x.addr = getE h x.addr := by unfold getE; rw [hf]
+  have hsb : hI.sbins = h.sbins := by rw [a1]
+  have htb : hI.tbins = h.tbins := by rw [a1]
+  refine ⟨{ h' with ents := putEnt h'.ents Q }, ?_, rfl, by rw [hfr.ents]; exact a2, a3, by rw [hfr.ents]; exact a4⟩
+  unfold unlink_chunk at e ⊢
+  split at e
+  · rename_i hsm
+    rw [if_pos hsm]
+    unfold unlink_small_chunk at e ⊢
+    dsimp only at e ⊢
+    have hgb : getBin hI (small_index sz) = getBin h (small_index sz) := by unfold getBin; rw [hsb]
+    rw [hgb, hge]
+    msimp at e
+    obtain ⟨l, e1, ee, e2, _, e3, e4⟩ := e
+    rw [e1, e2]
+    simp only [bind, Except.bind]
+    rw [(failIf_ok (u := ())).2 e3]
+    simp only
+    split at e4
+    · rename_i hc
+      rw [if_pos hc]
+      msimp at e4
+      subst e4
+      rw [a1]
+      rfl
+    · msimp at e4
+  · rename_i hsm
+    rw [if_neg hsm]
+    unfold unlink_large_chunk at e ⊢
+    dsimp only at e ⊢
+    rw [hge]
+    msimp at e
+    obtain ⟨ee, e1, t, e2, e3⟩ := e
+    have hgt : getTree hI (compute_tree_index ee.size) = getTree h (compute_tree_index ee.size) := by
+      unfold getTree; rw [htb]
+    rw [e1]
+    simp only [bind, Except.bind]
+    rw [hgt, e2]
+    simp only
+    split at e3
+    · rename_i t' ht'
+      msimp at e3
+      subst e3
+      rw [a1]
+      rfl
+    · msimp at e3
 
 end TinyVerif.Dl
